@@ -104,6 +104,60 @@ def eval_protected(case):
     return V, ('protected', kind, how, method, changed, w), 1
 
 
+DIR_NAMES = {'array': ['.', './', '../dir.darr', 'sub/..', 'abs-dir', 'Path(.)'],
+             'ragged': ['.', './', '../dir.darr', 'values/..', 'indices/../', 'abs-dir', 'Path(.)']}
+
+
+def eval_arraydir(case):
+    """A name that resolves to the array directory itself (which CONTAINS the protected files)."""
+    kind, how, method, ow = case['kind'], case['name'], case['method'], case['overwrite']
+    h = build(kind, with_meta=True)
+    dd = h.datadir
+    name = {'abs-dir': os.path.join(os.getcwd(), 'dir.darr'), 'Path(.)': Path('.')}.get(how, how)
+    before = snapshot.snap('dir.darr')
+    w, v = outcome_of(invoke(dd, method, name, ow))
+    after = snapshot.snap('dir.darr')
+    V = []
+    if w == 'returns' or not isinstance(v, OSError) or after != before:
+        sym = 'array files removed or modified' if after != before else \
+            ('call accepted' if w == 'returns' else f'raises {exc_class(v)} not OSError')
+        V.append(viol('protect', method.split(':')[0], f'{kind},array directory', sym,
+                      f'{kind}.datadir.{method}({name!r}) - a name for the array directory itself: '
+                      f'{"returned" if w == "returns" else repr(v)[:80]}; changes: {snapshot.diff(before, after)[:4]}'))
+    rmtree('dir.darr')
+    return V, ('arraydir', kind, how, method, w), 1
+
+
+def eval_symlinked(case):
+    """The data file (or, for a ragged array, the values directory) lives elsewhere and is symlinked into the array."""
+    kind, target, how, method, ow = case['kind'], case['target'], case['spelling'], case['method'], case['overwrite']
+    name = spell(target, how)
+    if name is None:
+        return [], None, 0
+    h = build(kind, with_meta=True)
+    rmtree('elsewhere')
+    os.makedirs('elsewhere')
+    moved = 'arrayvalues.bin' if kind == 'array' else 'values'
+    os.rename(os.path.join('dir.darr', moved), os.path.join('elsewhere', moved))
+    os.symlink(os.path.join(os.getcwd(), 'elsewhere', moved), os.path.join('dir.darr', moved))
+    darr = import_darr()
+    h = (darr.Array if kind == 'array' else darr.RaggedArray)('dir.darr', accessmode='r+')
+    dd = h.datadir
+    before = (snapshot.snap('dir.darr'), snapshot.snap('elsewhere'))
+    w, v = outcome_of(invoke(dd, method, name, ow))
+    after = (snapshot.snap('dir.darr'), snapshot.snap('elsewhere'))
+    V = []
+    if w == 'returns' or not isinstance(v, OSError) or after != before:
+        sym = 'protected file modified' if after != before else ('call accepted' if w == 'returns' else f'raises {exc_class(v)} not OSError')
+        V.append(viol('protect', method.split(':')[0], f'{kind},relocated and symlinked', sym,
+                      f'{kind}.datadir.{method}({name!r}) with {moved} relocated and symlinked: '
+                      f'{"returned" if w == "returns" else repr(v)[:80]}; changes: '
+                      f'{(snapshot.diff(before[0], after[0]) + snapshot.diff(before[1], after[1]))[:4]}'))
+    rmtree('dir.darr')
+    rmtree('elsewhere')
+    return V, ('symlinked', kind, target, how, method, w), 1
+
+
 def eval_protected_list(case):
     """delete_files with several names, one of them protected: refused as a whole."""
     kind, target, order = case['kind'], case['target'], case['order']
@@ -213,7 +267,7 @@ def eval_user(case):
 
 def evaluate(case):
     return {'protected': eval_protected, 'read': eval_read_allowed, 'user': eval_user,
-            'protected-list': eval_protected_list}[case['sub']](case)
+            'protected-list': eval_protected_list, 'arraydir': eval_arraydir, 'symlinked': eval_symlinked}[case['sub']](case)
 
 
 def build_cases(tier):
@@ -228,6 +282,12 @@ def build_cases(tier):
                       'order': ['user-first', 'protected-first', 'protected-last']})
     cases += product({'sub': ['protected-list'], 'kind': ['ragged'], 'target': ['values', 'README.txt', 'indices/arrayvalues.bin'],
                       'order': ['user-first', 'protected-first', 'protected-last']})
+    for kind in ('array', 'ragged'):
+        cases += product({'sub': ['arraydir'], 'kind': [kind], 'name': DIR_NAMES[kind], 'method': METHODS, 'overwrite': [True]})
+    cases += product({'sub': ['symlinked'], 'kind': ['array'], 'target': ['arrayvalues.bin'], 'spelling': ['str', 'Path', './x', 'abs'],
+                      'method': METHODS, 'overwrite': [True]})
+    cases += product({'sub': ['symlinked'], 'kind': ['ragged'], 'target': ['values', 'values/arrayvalues.bin', 'values/README.txt'],
+                      'spelling': ['str', 'Path', './x', 'abs'], 'method': METHODS, 'overwrite': [True]})
     cases += product({'sub': ['read'], 'kind': ['array', 'ragged'], 'target': ['README.txt', 'arraydescription.json']})
     cases += product({'sub': ['user'], 'kind': ['array', 'ragged'], 'name': ['notes.txt', 'é.json', 'sub.json', 'ünï.txt',
                                                                                     # names that merely BEGIN with a protected name are user files
